@@ -213,9 +213,19 @@ func c19Run(db *nitro.Nitro, tmp string, in *c19Input, sink *CaseSink) {
 	case "cmpkv":
 		// A,B are already encoded pairs
 		a, b := in.A.bytes(), in.B.bytes()
-		got := nitro.CompareKV(a, b)
+		got, perr := func() (g int, e interface{}) {
+			defer func() { e = recover() }()
+			return nitro.CompareKV(a, b), nil
+		}()
+		if perr != nil {
+			got = 99
+		}
 		coq := fmt.Sprintf("CCmpKV %s %s %s", cRLE(a), cRLE(b), cZ(int64(sign(got))))
 		idx := sink.Add(coq, in, "cmpkv", true)
+		if perr != nil {
+			sink.Fail(idx, fmt.Sprintf("CompareKV panicked on well-formed pairs with keys of %d and %d bytes: %v", len(a)-2, len(b)-2, perr), "c19-cmpkv-panic", in)
+			return
+		}
 		ka, _ := nitro.KVFromBytes(a)
 		kb, _ := nitro.KVFromBytes(b)
 		if sign(got) != sign(bytes.Compare(ka, kb)) {
@@ -322,6 +332,10 @@ func c19Gen(r *rand.Rand, i int) *c19Input {
 	case x < 92:
 		// pairs with related keys: equal, prefix, differing in one byte
 		k := genBytes(r, r.Intn(6))
+		if r.Intn(6) == 0 {
+			// the largest key lengths the 2-byte prefix can encode
+			k = genBytes(r, []int{65533, 65534, 65535}[r.Intn(3)])
+		}
 		k2 := append([]byte(nil), k...)
 		switch r.Intn(4) {
 		case 0:
